@@ -917,8 +917,29 @@ def r28_rec_table(ctx):
             if p_.outcome != "return" or not isinstance(p_.value, ast.Call) \
                     or not U(p_.value.func).endswith("TimeRecurrence"):
                 continue
-            for kw_ in p_.value.keywords:
-                v = kw_.value
+            kws = []
+            raw_kw = ctor[0].value.keywords
+            for i_, kw_ in enumerate(p_.value.keywords):
+                if kw_.arg is not None:
+                    kws.append((kw_.arg, kw_.value))
+                    continue
+                # **mapping: the literal it started as plus the items stored
+                # into it on this path
+                if isinstance(kw_.value, ast.Dict):
+                    for k_, v_ in zip(kw_.value.keys, kw_.value.values):
+                        if isinstance(k_, ast.Constant):
+                            kws.append((k_.value, v_))
+                nm = raw_kw[i_].value.id if i_ < len(raw_kw) and isinstance(
+                    raw_kw[i_].value, ast.Name) else None
+                if nm:
+                    for ek, ev in p_.env.items():
+                        m_ = re.fullmatch(r"@%s\['(\w+)'\]" % re.escape(nm),
+                                          ek)
+                        if m_:
+                            kws = [x for x in kws if x[0] != m_.group(1)]
+                            kws.append((m_.group(1), ev))
+            for arg_, v in kws:
+                kw_ = ast.keyword(arg=arg_, value=v)
                 txt = U(v)
                 if txt == "None":
                     continue
